@@ -240,6 +240,10 @@ func (c *c04Case) execute() (res map[string]interface{}, text string, calls []Ca
 				return
 			}
 		}
+		if c.WarmText != "" {
+			_ = w.Root.ResolveString(c.WarmText, cs.Op, nil)
+			w.ResetCalls()
+		}
 		res, text, pan = w.Resolve()
 		calls = w.Calls()
 		return
@@ -271,6 +275,12 @@ func (c *c04Case) execute() (res map[string]interface{}, text string, calls []Ca
 				pan = r
 			}
 		}()
+		if c.WarmText != "" {
+			_ = root.ResolveString(c.WarmText, cs.Op, nil)
+			rec.mu.Lock()
+			rec.calls = nil
+			rec.mu.Unlock()
+		}
 		if len(c.Prime) > 0 {
 			res = ResolveReused(root, text, cs.Op, kvGo(c.Prime), vars, func() { rec.mu.Lock(); rec.calls = nil; rec.mu.Unlock() })
 			return
